@@ -15,6 +15,7 @@ import GdVerif.Run.Settings
 import GdVerif.Run.Views
 import GdVerif.Run.Games
 import GdVerif.Run.Dispatch
+import GdVerif.Run.Arms
 import GdVerif.Run.IdCheck
 import GdVerif.Run.Real
 import GdVerif.Run.Cli
@@ -61,6 +62,7 @@ def allEntries : List (String × (List String → String)) := List.flatten [
   viewEntries,
   gameEntries,
   dispatchEntries,
+  armsEntries,
   idCheckEntries,
   realEntries,
   cliEntries,
